@@ -77,12 +77,12 @@ CLAIMED = {
             'zero-norm / constant RDMs excluded by assumption; branches whose feasibility z3 cannot decide (zero-norm pooled RDMs) are not '
             'explored; model classes keeping a reference to the caller\'s RDMs are recorded as known findings'),
     'C17': ('DESIGN.md 4/C17',
-            'Real rank_/sqrt_/positive_/minmax_/geotopological_transform and transform() executed symbolically: rank transform over every '
+            'Real rank_/sqrt_/positive_/minmax_/geotopological_/geodesic_transform and transform() executed symbolically: rank transform over every '
             'weak ordering of 3 entries (all 5 rank methods, NaN positions), sqrt/positive as max(x,0) identities without forking, minmax '
             'and the clipped-linear geo-topological map on every ordering path, descriptor and measure-name propagation; rank measures '
             '(spearman, rho-a, tau-a, tau-b) proved unchanged under symbolic positive affine maps, sqrt and x^3+x on all 169 ordering '
             'paths; cosine under positive scaling and corr under positive affine maps as identities (plain and whitened).',
-            'geodesic_transform outside (networkx rejects object arrays; no model built); 3 conditions for everything that forks on orderings'),
+            'geodesic_transform runs against a small model of the two networkx calls it makes (from_numpy_array: an edge per non-zero entry; floyd_warshall_numpy), 3 conditions, oracle = minimum over explicitly enumerated simple paths; 3 conditions for everything that forks on orderings'),
     'C05': ('DESIGN.md 4/C05',
             'All eight sets_* generators are executed for every grouping pattern of <=5|6 conditions / RDMs (incl. duplicated groups), every k '
             'and group size, ordered and every shuffle outcome (choice points) for <=4 groups: disjoint train/test groups, group integrity, '
